@@ -161,7 +161,7 @@ def work_strategy(stratum, tier):
             v=st.just(v),
             D=st.just(D),
             N=st.just(N),
-            L=gens.st_L(0.3, 30.0),
+            L=gens.st_L(0.3, 30.0, extreme=True),
             frac=st.sampled_from(["2/3", "2/3", "1/2"]),
             scale=gens.nonzero_coef(0.2, 3.0),
             seed=gens.st_seed(),
